@@ -3,7 +3,7 @@ From Coq Require Import String List Bool Permutation NArith.
 Import ListNotations.
 Require Import V.Lib.PyStr V.Args.Model V.Args.Proofs V.Args.Reports V.Args.ValueModel V.Args.Values V.Args.Minimal.
 From Coq Require Import Sorted.
-Require Import V.Args.LoopModel V.Args.LoopValues.
+Require Import V.Args.LoopModel V.Args.LoopValues V.Args.Redeclared.
 Open Scope string_scope.
 
 (* For every list of declared references (any number, any spellings, any values), every argument
@@ -408,6 +408,38 @@ Definition ex_fs_loop : fsys :=
 Definition ex_ps_loop : list piece :=
   [ Lit "--dir "; Tok "stage1.step:ref"; Lit " --last "; Tok "stage1.step/result.txt:output"; Lit " --dirs ";
     Tok "stage1.step:loopref"; Lit " --values "; Tok "stage1.step/result.txt:loopoutput"; Lit " "; Tok "stage0.A:ref" ].
+(* ---- references declared more than once (Redeclared.v).  A command line that writes a producer of the
+   consumer's own stage in BOTH spellings declares both; the list the code iterates over then holds the
+   reference twice and it is visited twice (the qualified spelling, then the relative one).  For EVERY list
+   of declarations - duplicates allowed, references written in both spellings allowed -: if whatever tokens
+   have been replaced each spelling that is looked for occurs only as the tokens equal to it
+   (separated_all), the references that denote one token have one value, and every reference written in
+   both spellings is declared at least twice (covered), the result is exactly the specification. *)
+Theorem C10_exact_redeclared : forall refs ps,
+  separated_all refs ps -> unambiguous refs ps -> covered refs ps ->
+  resolve_args refs (flatten ps) = spec refs ps.
+Proof. exact exact_redeclared. Qed.
+Print Assumptions C10_exact_redeclared.
+
+(* on pieces no hypothesis on the texts is needed: the visits in sequence = the substitution in parallel *)
+Theorem C10_redeclared_pieces : forall refs ps,
+  unambiguous refs ps -> covered refs ps -> fold_left pstep refs ps = map (render refs) ps.
+Proof. exact pieces_redeclared. Qed.
+Print Assumptions C10_redeclared_pieces.
+
+(* the checker evaluated on every case of the correspondence run is sound *)
+Theorem C10_exact_redeclared_checked : forall refs ps,
+  redeclaredb refs ps = true -> resolve_args refs (flatten ps) = spec refs ps.
+Proof. exact exact_redeclared_checked. Qed.
+Print Assumptions C10_exact_redeclared_checked.
+
+Definition ex_sim : dref := mk_ref "stage1.Sim:ref" "Sim:ref" true "/I/stages/stage1/Sim".
+Definition ex_n : dref := mk_ref "stage1.Sim/n.txt:output" "Sim/n.txt:output" true "41".
+Definition ex_refs_r : list dref := [ex_sim; ex_n; mk_ref "stage0.Gen:ref" "Gen:ref" true "/I/stages/stage0/Gen"; ex_n; ex_sim].
+Definition ex_ps_r : list piece :=
+  [ Lit "--in "; Tok "Sim:ref"; Lit "/in.dat --check "; Tok "stage1.Sim:ref"; Lit "/in.dat --n="; Tok "Sim/n.txt:output";
+    Lit ","; Tok "stage1.Sim/n.txt:output"; Lit " --gen "; Tok "stage0.Gen:ref"; Lit " literal Sim ref: stage1. end" ].
+
 Example C10_nonvacuous :
   separatedb ex_refs ex_ps = true /\ unambiguousb ex_refs ex_ps = true /\
   resolve_args ex_refs (flatten ex_ps) =
@@ -451,5 +483,13 @@ Example C10_nonvacuous :
     [ ([("stage1.step", [mk_inst 0 "/I/stages/stage1/0#step" false])], ex_fs_loop); ([], ex_fs_loop) ] =
     [ Some ("--dir /I/stages/stage1/0#step --last 0.50 --dirs /I/stages/stage1/0#step --values 0.50 " ++
             "/I/stages/stage0/A");
-      resolve_on_l ex_fs_loop ex_lrefs (flatten ex_ps_loop) ].
+      resolve_on_l ex_fs_loop ex_lrefs (flatten ex_ps_loop) ] /\
+  (* a producer of the consumer's own stage declared and written in both spellings: outside `separated`, inside the
+     hypotheses of C10_exact_redeclared; visited twice, exact; with the duplicates dropped the relative spellings stay *)
+  separatedb ex_refs_r ex_ps_r = false /\ redeclaredb ex_refs_r ex_ps_r = true /\ same_tokenisation ex_ps_r = true /\
+  resolve_args ex_refs_r (flatten ex_ps_r) =
+    "--in /I/stages/stage1/Sim/in.dat --check /I/stages/stage1/Sim/in.dat --n=41,41 --gen /I/stages/stage0/Gen literal Sim ref: stage1. end" /\
+  unused_refs ex_refs_r (flatten ex_ps_r) = [] /\ unresolved (resolve_args ex_refs_r (flatten ex_ps_r)) = false /\
+  resolve_args (firstn 3 ex_refs_r) (flatten ex_ps_r) =
+    "--in Sim:ref/in.dat --check /I/stages/stage1/Sim/in.dat --n=Sim/n.txt:output,41 --gen /I/stages/stage0/Gen literal Sim ref: stage1. end".
 Proof. vm_compute. repeat split; reflexivity. Qed.
